@@ -230,6 +230,23 @@ def grep_forbidden(paths):
     return hits
 
 
+def import_closure(modules):
+    """Files of the PdsVerif modules reachable from `modules` through `import PdsVerif.*` lines."""
+    seen, todo = set(), list(modules)
+    while todo:
+        m = todo.pop()
+        if m in seen:
+            continue
+        seen.add(m)
+        try:
+            src = open(module_path(m)).read()
+        except FileNotFoundError:
+            continue
+        for mm in re.finditer(r"^import\s+(PdsVerif(?:\.\w+)+)", src, re.M):
+            todo.append(mm.group(1))
+    return [module_path(m) for m in sorted(seen)]
+
+
 def lean_sources():
     res = []
     for root, _, files in os.walk(os.path.join(LEAN, "PdsVerif")):
